@@ -172,7 +172,8 @@ impl Scenario for PushScenario {
         let batched = r.chance(1, 2);
         let max_mults = if batched {
             // several proof batches; batch sizes that do and do not fill storage blocks
-            r.pick(&[1usize, 2, 4, 8, 16, 32, 64, 128, 256]).min(records.next_power_of_two())
+            // at most 64 proof batches per run (each costs a few thousand scheduling steps)
+            r.pick(&[1usize, 2, 4, 8, 16, 32, 64, 128, 256]).min(records.next_power_of_two()).max(records.div_ceil(64).next_power_of_two())
         } else {
             records.next_power_of_two()
         };
@@ -220,7 +221,9 @@ impl Scenario for PushScenario {
         let (o, res) = run_once(p, &spec, None);
         match o.class {
             "finished" => {}
-            "deadlock" | "stepcap" => return RunRes::violation("dzkp_honest_no_progress", format!("{}: {}", o.class, truncate(&o.panic_msg.clone().unwrap_or_default(), 300)), shape, Some(o)),
+            // the step cap is a harness resource bound, not a verdict on the code
+            "stepcap" => return RunRes::inconclusive("stepcap", format!("step cap reached with {} proof batches", records.div_ceil(max_mults)), shape, Some(o)),
+            "deadlock" => return RunRes::violation("dzkp_honest_no_progress", format!("{}: {}", o.class, truncate(&o.panic_msg.clone().unwrap_or_default(), 300)), shape, Some(o)),
             _ => return RunRes::violation("dzkp_honest_panic", format!("panic while proving an honest batch: {}", o.panic_msg.clone().unwrap_or_default()), shape, Some(o)),
         }
         for h in 0..3 {
